@@ -8,33 +8,39 @@ def _load(name):
     sp = importlib.util.spec_from_file_location(name, os.path.join(os.path.dirname(__file__), name + '.py'))
     m = importlib.util.module_from_spec(sp); sp.loader.exec_module(m); return m
 
-ED = r'struct encryption_default\s*(?=\{)'
-CRE = r'struct characteristic_requires_encryption<\s*bluetoe::characteristic< CharacteristicOptions\.\.\. >,\s*bluetoe::service< ServiceOptions\.\.\. >,\s*bluetoe::server< ServerOptions\.\.\. > >\s*(?=\{)'
-CRE_RULES = [(r'encryption_default< (\w+), (\w+)Options\.\.\. >::value', r'encryption_default_value( \1, G_\2_req, G_\2_noreq )', 1)]
+ED_BODY = r'struct encryption_default\s*\{[^{}]*\}'
+CRE_BODY = r'struct characteristic_requires_encryption<\s*bluetoe::characteristic< CharacteristicOptions\.\.\. >,\s*bluetoe::service< ServiceOptions\.\.\. >,\s*bluetoe::server< ServerOptions\.\.\. > >\s*\{[^{}]*\}'
+# every 'static bool constexpr NAME = <expr>;' of the struct becomes 'const bool NAME = <expr>;' in source order (whatever members there are);
+# the has_option<> meta function results are the inputs
+LIFT = [(r'^struct [^{]*\{', '', 1), (r'\}$', '', 1), (r'static bool const(?:expr)? (\w+)\s*=', r'const bool \1 =', '+')]
+ED_RULES = LIFT + [(r'details::has_option< requires_encryption, Options\.\.\. >::value', 'has_requires_encryption', 1),
+                   (r'details::has_option< may_require_encryption, Options\.\.\. >::value', 'has_may_require_encryption', 1),
+                   (r'details::has_option< no_encryption_required, Options\.\.\. >::value', 'has_no_encryption_required', 1)]
+CRE_RULES = LIFT + [(r'encryption_default< (\w+), (\w+)Options\.\.\. >::value', r'encryption_default_value( \1, G_\2_req, G_\2_noreq, G_\2_may )', 3)]
 EX = dict(
-    ed_value=dict(kind='expr', file=ENC, scope=ED, locate=r'static bool constexpr value ='),
-    ed_maybe=dict(kind='expr', file=ENC, scope=ED, locate=r'static bool constexpr maybe ='),
-    cre_server=dict(kind='expr', file=ENC, scope=CRE, locate=r'static bool constexpr server_requires_encryption\s*=', rules=CRE_RULES),
-    cre_service=dict(kind='expr', file=ENC, scope=CRE, locate=r'static bool constexpr service_requires_encryption\s*=', rules=CRE_RULES),
-    cre_value=dict(kind='expr', file=ENC, scope=CRE, locate=r'static bool constexpr value\s*=', rules=CRE_RULES),
+    ed_body=dict(kind='text', body='text', file=ENC, locate=ED_BODY, no_members=True, rules=ED_RULES),
+    cre_body=dict(kind='text', body='text', file=ENC, locate=CRE_BODY, no_members=True, rules=CRE_RULES),
 )
-CODE = r'''
-/* encryption.hpp: the defining expressions of the constexpr members, lifted into functions of the has_option<> results */
-bool W_d, W_r, W_n; bool W_o[6];
+CODE = r"""
+/* encryption.hpp: the constexpr members of encryption_default<> and characteristic_requires_encryption<>, lifted member by member into
+   functions of the has_option<> results */
+bool W_d, W_r, W_n, W_m; bool W_o[9];
 #define ED_SPEC(Default, req, noreq) ((noreq) ? false : (req) ? true : (Default))
-bool encryption_default_value(bool Default, bool require_encryption, bool require_not_encryption)
-__CPROVER_requires(WIT(encryption_default_value, Default == W_d && require_encryption == W_r && require_not_encryption == W_n))
-/* an explicit no_encryption_required wins, then an explicit requires_encryption, otherwise the enclosing level's value is inherited */
-__CPROVER_ensures(__CPROVER_return_value == ED_SPEC(Default, require_encryption, require_not_encryption))
+bool encryption_default_value(bool Default, bool has_requires_encryption, bool has_no_encryption_required, bool has_may_require_encryption)
+__CPROVER_requires(WIT(encryption_default_value, Default == W_d && has_requires_encryption == W_r && has_no_encryption_required == W_n && has_may_require_encryption == W_m))
+/* an explicit no_encryption_required wins, then an explicit requires_encryption, otherwise the enclosing level's value is inherited;
+   may_require_encryption does not change whether encryption is required */
+__CPROVER_ensures(__CPROVER_return_value == ED_SPEC(Default, has_requires_encryption, has_no_encryption_required))
 __CPROVER_assigns()
-{ return {{ed_value}}; }
-bool encryption_default_maybe(bool Default, bool require_encryption, bool require_not_encryption, bool may_require)
-__CPROVER_ensures(__CPROVER_return_value == (ED_SPEC(Default, require_encryption, require_not_encryption) || may_require))
+{ {{ed_body}} return value; }
+bool encryption_default_maybe(bool Default, bool has_requires_encryption, bool has_no_encryption_required, bool has_may_require_encryption)
+__CPROVER_ensures(__CPROVER_return_value == (ED_SPEC(Default, has_requires_encryption, has_no_encryption_required) || has_may_require_encryption))
 __CPROVER_assigns()
-{ const bool value = encryption_default_value(Default, require_encryption, require_not_encryption); return {{ed_maybe}}; }
-bool G_Server_req, G_Server_noreq, G_Service_req, G_Service_noreq, G_Characteristic_req, G_Characteristic_noreq;
+{ {{ed_body}} return maybe; }
+bool G_Server_req, G_Server_noreq, G_Server_may, G_Service_req, G_Service_noreq, G_Service_may, G_Characteristic_req, G_Characteristic_noreq, G_Characteristic_may;
 bool characteristic_requires_encryption(void)
-__CPROVER_requires(G_Server_req == W_o[0] && G_Server_noreq == W_o[1] && G_Service_req == W_o[2] && G_Service_noreq == W_o[3] && G_Characteristic_req == W_o[4] && G_Characteristic_noreq == W_o[5])
+__CPROVER_requires(G_Server_req == W_o[0] && G_Server_noreq == W_o[1] && G_Service_req == W_o[2] && G_Service_noreq == W_o[3] && G_Characteristic_req == W_o[4] && G_Characteristic_noreq == W_o[5]
+                   && G_Server_may == W_o[6] && G_Service_may == W_o[7] && G_Characteristic_may == W_o[8])
 /* characteristic option overrides service option overrides server option; nothing anywhere: no encryption required */
 __CPROVER_ensures(__CPROVER_return_value ==
     ED_SPEC(ED_SPEC(ED_SPEC(false, G_Server_req, G_Server_noreq), G_Service_req, G_Service_noreq), G_Characteristic_req, G_Characteristic_noreq))
@@ -42,17 +48,14 @@ __CPROVER_ensures((G_Characteristic_req && !G_Characteristic_noreq) ==> __CPROVE
 __CPROVER_ensures(G_Characteristic_noreq ==> !__CPROVER_return_value)
 __CPROVER_ensures((!G_Characteristic_req && !G_Characteristic_noreq && G_Service_req && !G_Service_noreq) ==> __CPROVER_return_value)
 __CPROVER_assigns()
-{
-    const bool server_requires_encryption = {{cre_server}};
-    const bool service_requires_encryption = {{cre_service}};
-    return {{cre_value}};
-}
-#define SETUP W_d = nondet_bool(); W_r = nondet_bool(); W_n = nondet_bool(); for (int k = 0; k < 6; ++k) W_o[k] = nondet_bool(); \
-  G_Server_req = W_o[0]; G_Server_noreq = W_o[1]; G_Service_req = W_o[2]; G_Service_noreq = W_o[3]; G_Characteristic_req = W_o[4]; G_Characteristic_noreq = W_o[5]; BT_KNOWN_EXCLUDE()
-void h_encryption_default_value(void) { SETUP; encryption_default_value(W_d, W_r, W_n); BT_CANARY(); }
-void h_encryption_default_maybe(void) { SETUP; encryption_default_maybe(W_d, W_r, W_n, nondet_bool()); BT_CANARY(); }
+{ {{cre_body}} return value; }
+#define SETUP W_d = nondet_bool(); W_r = nondet_bool(); W_n = nondet_bool(); W_m = nondet_bool(); for (int k = 0; k < 9; ++k) W_o[k] = nondet_bool(); \
+  G_Server_req = W_o[0]; G_Server_noreq = W_o[1]; G_Service_req = W_o[2]; G_Service_noreq = W_o[3]; G_Characteristic_req = W_o[4]; G_Characteristic_noreq = W_o[5]; \
+  G_Server_may = W_o[6]; G_Service_may = W_o[7]; G_Characteristic_may = W_o[8]; BT_KNOWN_EXCLUDE()
+void h_encryption_default_value(void) { SETUP; encryption_default_value(W_d, W_r, W_n, W_m); BT_CANARY(); }
+void h_encryption_default_maybe(void) { SETUP; encryption_default_maybe(W_d, W_r, W_n, W_m); BT_CANARY(); }
 void h_characteristic_requires_encryption(void) { SETUP; characteristic_requires_encryption(); BT_CANARY(); }
-'''
+"""
 UNITS = [dict(name='requires_encryption', extracts=EX, code=CODE, replay=dict(src='replay/c05_replay.cpp'),
               enforce=['encryption_default_value', 'encryption_default_maybe', 'characteristic_requires_encryption'],
               replace=['encryption_default_value'])]
